@@ -1,0 +1,16 @@
+//go:build verif
+
+// Contracts for package cert (comment-only; see /verif/DESIGN.md).
+// This file contains no declarations: with and without the `verif` tag the compiled code is identical.
+package cert
+
+// hex(b) is the lower-case hex rendering of a byte slice (what fmt.Sprintf("%0x", b) returns); assumed
+// injective on equal-length inputs and, for 20 bytes, 40 characters of [0-9a-f] (bounded-probed).
+// skiOfKey(cert) stands for hex(SHA-1(subjectPublicKey bits of cert)): the derivation SHIP 12.2 mandates.
+//@ ufunc skiOfKey(ref) string
+
+//@ func SkiFromCertificate(cert) pure [C02]
+//@   requires cert != nil
+//@   ensures [C02] K1-length: result.1 == nil ==> len(cert.SubjectKeyId) == 20
+//@   ensures [C02] K2-hex: result.1 == nil ==> result.0 == hex(cert.SubjectKeyId)
+//@   ensures [C02] K3-bound: result.1 == nil ==> result.0 == skiOfKey(cert)
